@@ -3,6 +3,7 @@ package main
 import (
 	"fmt"
 	"go/token"
+	"os"
 	"sort"
 	"strings"
 
@@ -242,6 +243,9 @@ func (q *PathQuery) Run() {
 	visited := map[string]bool{}
 	stack := []pathState{start}
 	// which condition keys matter: those tested by more than one If, or queried (nil tests). Keep all; functions are small.
+	if os.Getenv("STUNLINT_PATHDBG") != "" {
+		defer func() { fmt.Fprintf(os.Stderr, "PATHDBG %s visited=%d\n", fnName(fn), len(visited)) }()
+	}
 	for len(stack) > 0 {
 		s := stack[len(stack)-1]
 		stack = stack[:len(stack)-1]
